@@ -534,6 +534,7 @@ def make_case(rng, tid, *, groups=("core",), AND=None, max_rows=8, modes=False):
         cfg["noMatches"] = rng.random() < 0.5
         cfg["keepUnmatched"] = rng.random() < 0.6
         cfg["noRun"] = rng.random() < 0.1
+        cfg["noDefaultPrint"] = rng.random() < 0.5
     return {"tid": tid, "prog": prog, "records": fs.records, "cfg": cfg}
 
 
